@@ -31,12 +31,14 @@ VARIABLES l, pos, order,            \* parse state: record, position, files reco
           sep, sepKnown,            \* the group's file separator (<<>> or one line), derived from ref
           present, refStatus,       \* files reported by / exit status of the reference run
           sref, srun,               \* record indices of the first sortref / sortrun of the group
-          last                      \* verdict of the record just closed (emission only)
+          last,                     \* verdict of the record just closed (emission only)
+          done, idx                 \* redundant with order / the group's blocks, kept for speed on groups of
+                                    \* thousands of files: the set of files in order; first line -> files whose block starts with it
 
-vars == <<l, pos, order, g, sep, sepKnown, present, refStatus, sref, srun, last>>
+vars == <<l, pos, order, g, sep, sepKnown, present, refStatus, sref, srun, last, done, idx>>
 
 NoVerdict == [l |-> 0, verdict |-> "", pos |-> 0, order |-> <<>>]
-printed == {order[i] : i \in DOMAIN order}
+printed == done
 E == Rec[l]
 Out == E.out
 Blocks == Rec[g].blocks
@@ -47,8 +49,11 @@ NB == Len(Blocks)
 At(b, p) == /\ p + Len(b) <= Len(Out) + 1
             /\ \A i \in 1..Len(b) : Out[p + i - 1] = b[i]
 
-Unprinted == {f \in 1..NB : f \notin printed /\ Blk(f) # <<>>}
-Direct(p) == {f \in Unprinted : At(Blk(f), p)}
+Direct(p) == IF p <= Len(Out) /\ Out[p] \in DOMAIN idx
+             THEN {f \in idx[Out[p]] : f \notin printed /\ At(Blk(f), p)}
+             ELSE {}
+IndexOf(bs) == LET ne == {f \in 1..Len(bs) : bs[f] # <<>>}
+               IN  [t \in {bs[f][1] : f \in ne} |-> {f \in ne : bs[f][1] = t}]
 
 \* candidate steps <<file, separator consumed before it>>
 Cands ==
@@ -63,23 +68,25 @@ AtEnd == pos = Len(Out) + 1
 
 Init == /\ l = 1 /\ pos = 1 /\ order = <<>> /\ g = 0 /\ sep = <<>> /\ sepKnown = FALSE
         /\ present = {} /\ refStatus = 0 /\ sref = 0 /\ srun = 0 /\ last = NoVerdict
+        /\ done = {} /\ idx = <<>>
 
 Group ==
   /\ E.k = "group"
   /\ g' = l /\ l' = l + 1 /\ pos' = 1 /\ order' = <<>>
   /\ sep' = <<>> /\ sepKnown' = FALSE /\ present' = {} /\ refStatus' = 0 /\ sref' = 0 /\ srun' = 0
   /\ last' = NoVerdict
+  /\ done' = {} /\ idx' = IndexOf(E.blocks)
 
 Block(c) ==
   /\ E.k \in {"ref", "run"}
   /\ c \in Cands
   /\ pos' = pos + Len(c[2]) + Len(Blk(c[1]))
-  /\ order' = Append(order, c[1])
+  /\ order' = Append(order, c[1]) /\ done' = done \cup {c[1]}
   /\ IF E.k = "ref" /\ ~sepKnown /\ printed # {}
      THEN sepKnown' = TRUE /\ sep' = c[2]
      ELSE UNCHANGED <<sep, sepKnown>>
   /\ last' = NoVerdict
-  /\ UNCHANGED <<l, g, present, refStatus, sref, srun>>
+  /\ UNCHANGED <<l, g, present, refStatus, sref, srun, idx>>
 
 \* why a multi-threaded run's output is not accepted (the remaining output starts at pos)
 Diagnose ==
@@ -99,7 +106,7 @@ Diagnose ==
   ELSE "interleaved"
 
 Close(v) == /\ last' = [l |-> l, verdict |-> v, pos |-> pos, order |-> order]
-            /\ l' = l + 1 /\ pos' = 1 /\ order' = <<>>
+            /\ l' = l + 1 /\ pos' = 1 /\ order' = <<>> /\ done' = {} /\ UNCHANGED idx
 
 FinishRef ==
   /\ E.k = "ref" /\ Cands = {}
@@ -142,6 +149,10 @@ Unambiguous == (l <= NRec /\ E.k \in {"ref", "run"}) => Cardinality(Cands) <= 1
 
 WellFormed == l <= NRec => /\ E.k \in {"group", "ref", "run", "sortref", "sortrun"}
                            /\ (E.k # "group" => g # 0)
+
+\* the two redundant variables say what they are meant to say (checked while the parse is short)
+Redundant == /\ Len(order) <= 48 => done = {order[i] : i \in DOMAIN order}
+             /\ (g # 0 /\ NB <= 48) => idx = IndexOf(Blocks)
 
 Emit == last.l # 0 => PrintT(<<"EMIT", ToJson(last)>>)
 
